@@ -538,6 +538,11 @@ def contract_call(ex, c, fi, recv, pos, kw, st, fr):
         ev_state.loc[gname] = fresh_value(sym.Ty('imap') if gty == 'imap' else sym.parse_ty(gty), gname)
     for nm, text in c.ensures:
         ns.assume(ex.specs.eval_bool(ex, text, ev_state, cfr))
+    if getattr(c, 'ghost_results', None):
+        # the callee's ghost results become the caller's ghost locals of the same name
+        saved_loc = dict(saved_loc)
+        for gname in c.ghost_results:
+            saved_loc[gname] = ev_state.loc[gname]
     ns.loc = saved_loc
     if ex.feasible(ns):
         outs.append((res, ns))
@@ -796,7 +801,7 @@ def rely_havoc(ex, st, fr, what):
     old.pure = True
     ex.havoc_all(st, [])
     h = st.heap
-    h.maps['$world_havocked'] = z3.BoolVal(True)   # other objects may have changed: frames speak about self only
+    h.maps['$world_havocked'] = z3.IntVal(next(sym._counter))   # epoch of the last external call
     for k in keep:
         if k[0] == 'field':
             h.store(k[1].t, k[2], k[3], k[4])
